@@ -1313,6 +1313,7 @@ def instrumented(h: Helper):
     new.decorator_list = []
     m = ast.Module(body=[new], type_ignores=[])
     ast.fix_missing_locations(m)
+    m = ast.parse(ast.unparse(m))      # consistent source positions (inlined auxiliary helpers carry foreign ones)
     rec: dict[str, bool] = {}
 
     def orc(name, thunk):
